@@ -147,11 +147,15 @@ func (g *G) kdCase(dim int) int {
 	n := g.pickI(kdSizes)
 	span := g.pickI([]int{1, 3, 3, 6, 6, 10})
 	pts := make([]V, n)
+	// sc: grid spacing of the whole scene (points, queries, radii).  With spacing 1/4 or 1/2 plane
+	// distances below 1 occur, where d and d*d are ordered the other way round than above 1 (a
+	// squared/unsquared mix-up in a pruning test is invisible on integer clouds).
+	sc := g.pickF([]float64{1, 1, 0.5, 0.25, 0.25})
 	mode := g.Rng.Intn(8) // 0: all identical, 1: collinear along an axis, else: small integer cloud
 	line := g.Rng.Intn(dim)
 	for i := range pts {
 		for a := 0; a < dim; a++ {
-			pts[i][a] = float64(g.Rng.Intn(span + 1))
+			pts[i][a] = float64(g.Rng.Intn(span+1)) * sc
 		}
 		if i > 0 && mode == 0 {
 			pts[i] = pts[0]
@@ -202,6 +206,9 @@ func (g *G) kdCase(dim int) int {
 		}
 		emit(op, impl)
 		g.Stat(kind+" trees", 1)
+		if sc < 1 {
+			g.Stat(kind+" trees on a sub-unit grid", 1)
+		}
 		if n == 0 {
 			g.Stat(kind+" empty-tree", 1)
 		}
@@ -229,9 +236,9 @@ func (g *G) kdCase(dim int) int {
 			q := sub[g.Rng.Intn(len(sub))]
 			p := q.c
 			if less { // q[axis] < split: put p on the split plane or beyond
-				p[nd.axis] = nd.c[nd.axis] + g.pickF([]float64{0, 0, 0.25, 0.5, 1})
+				p[nd.axis] = nd.c[nd.axis] + sc*g.pickF([]float64{0, 0, 0.25, 0.5, 1})
 			} else { // q[axis] >= split: put p strictly below the split plane
-				p[nd.axis] = nd.c[nd.axis] - g.pickF([]float64{0.25, 0.5, 1, 2})
+				p[nd.axis] = nd.c[nd.axis] - sc*g.pickF([]float64{0.25, 0.5, 1, 2})
 			}
 			return p, math.Abs(p[nd.axis] - q.c[nd.axis])
 		}
@@ -242,7 +249,7 @@ func (g *G) kdCase(dim int) int {
 	queryPoint := func() V {
 		var p V
 		for a := 0; a < dim; a++ {
-			p[a] = float64(g.Rng.Intn(4*span+17)-8) / 4 // quarter grid in [-2, span+2]
+			p[a] = sc * float64(g.Rng.Intn(4*span+17)-8) / 4 // quarter grid in [-2, span+2]
 		}
 		if n == 0 {
 			return p
@@ -257,10 +264,10 @@ func (g *G) kdCase(dim int) int {
 			p = nd.c.add(nodes[g.Rng.Intn(len(nodes))].c).scale(0.5)
 		case 3: // integer offset along the split axis from a tree point
 			p = nd.c
-			p[nd.axis] += float64(g.Rng.Intn(5) - 2)
+			p[nd.axis] += sc * float64(g.Rng.Intn(5)-2)
 		case 4: // integer point (ties between neighbours)
 			for a := 0; a < dim; a++ {
-				p[a] = float64(g.Rng.Intn(span + 1))
+				p[a] = sc * float64(g.Rng.Intn(span+1))
 			}
 		case 5, 6, 7:
 			p, _ = across()
@@ -312,7 +319,8 @@ func (g *G) kdCase(dim int) int {
 			if ties > 1 {
 				g.Stat(kind+" nn ties", 1)
 			}
-			return hlib.RatStr(d) + " " + ptStr(dim, r)
+			// values, not identities: with ties any nearest point is a correct answer
+			return hlib.RatStr(d)
 		}))
 	}
 
@@ -354,7 +362,7 @@ func (g *G) kdCase(dim int) int {
 			}
 			w := make([]string, len(rs))
 			for i, r := range rs {
-				w[i] = ptStr(dim, r)
+				w[i] = hlib.RatStr(sqDist(dim, p, r)) // values, not identities (ties)
 			}
 			return strings.Join(w, " ")
 		}))
@@ -363,10 +371,10 @@ func (g *G) kdCase(dim int) int {
 	// sphere: radius exactly the distance to a tree point (touching, `<=`), slightly smaller, or random
 	for k := 0; k < 6; k++ {
 		p := queryPoint()
-		r := float64(g.Rng.Intn(9)) / 4
+		r := sc * float64(g.Rng.Intn(9)) / 4
 		if n > 0 && g.p(0.7) {
 			nd := nodes[g.Rng.Intn(len(nodes))]
-			off := float64(g.Rng.Intn(4))
+			off := sc * float64(g.Rng.Intn(4))
 			p = nd.c
 			p[g.Rng.Intn(dim)] += off * g.pickF([]float64{1, -1})
 			r = off
@@ -376,7 +384,7 @@ func (g *G) kdCase(dim int) int {
 			}
 			switch g.Rng.Intn(4) {
 			case 0:
-				r = off - 0.25
+				r = off - 0.25*sc
 			case 1:
 				r = -off
 			}
